@@ -147,12 +147,14 @@ Theorem C20_partial_factory_min_arity_refuted :
 Proof. eexists. eexists. vm_compute. split; reflexivity. Qed.
 Print Assumptions C20_partial_factory_min_arity_refuted.
 
-(* the bound is requirements.max_depth when there is no override, and the override when it is
-   at least 2 (an override of 1 or 0 with requirements.max_depth > 1 is the quirk of docs/C20.md) *)
+(* the bound is the effective max_depth: requirements.max_depth when there is no override (or the
+   falsy override 0), the override argument m for every m >= 1 - also an override of 1 below
+   requirements.max_depth gives a single node *)
 Theorem C20_depth_bound_is_max_depth : forall rq,
   (1 <= max_depth rq -> depth_bound rq None = max_depth rq) /\
-  (forall m, 2 <= m -> 1 < max_depth rq -> depth_bound rq (Some m) = m).
-Proof. intros rq. split; [apply depth_bound_plain|apply depth_bound_override]. Qed.
+  (forall m, 1 <= m -> depth_bound rq (Some m) = m) /\
+  depth_bound rq (Some 0) = depth_bound rq None.
+Proof. intros rq. split; [apply depth_bound_plain|split; [apply depth_bound_override|reflexivity]]. Qed.
 Print Assumptions C20_depth_bound_is_max_depth.
 
 (* (5) InitialPopulationGenerator, for every generator, verifier, equality: at most pop_size
@@ -183,6 +185,11 @@ Example random_graph_nontrivial :
   exists t, random_graph (veval (VMinDepth 3)) (mkReq 3 1 2) None false 2 1000 [[0; 0; 1; 0]; [1; 1; 0; 1; 0; 0; 1; 0]]
             = (Ok t, 2) /\ tdepth t = 3.
 Proof. eexists. vm_compute. split; reflexivity. Qed.
+
+(* an override of 1 below requirements.max_depth = 3: a single node, whatever the choices *)
+Example override_one_single_node :
+  random_graph (fun _ => true) (mkReq 3 1 3) (Some 1) false 2 1000 [[1; 5; 5; 1; 1]] = (Ok (T 1 []), 1).
+Proof. reflexivity. Qed.
 
 Example random_graph_gives_up :
   random_graph (veval VNever) (mkReq 2 1 1) None false 1 3 [] = (Raise ValueError, 4).
